@@ -394,7 +394,38 @@ class CtorFn(Fn):
                 cn, env = self.bind_local(x, x.id, "int", env, s.value)
                 names.append(cn)
             return ("listmatch", t, names, go(env), ("raise", "ValueError"))
+        if (isinstance(tgt, ast.Attribute) and dotted(tgt) == "self." + tgt.attr and self.recv and not self.is_ctor
+                and isinstance(s, ast.Assign) and "self." + tgt.attr not in pysrc.FIELD):
+            # self.<property> = e: the property's setter `property(getter, _setter)` runs; it stores into self._<attribute>
+            st = self.property_setter(tgt)
+            if st is not None:
+                if env["@mut"] or env["@break"] is not None:
+                    bad(s, "second state assignment / state assignment inside a loop")
+                ty, t = self.ex(s.value, env)
+                if ty != "int":
+                    bad(s, "property assignment of %s" % pysrc.show(ty))
+                pre = self.take_pre()
+                r = self.generated(s, self.recv, st[0], self.state(env), [("sarg", "(SInt %s)" % t)])
+                if r[0] != "out" or r[1] != "int":
+                    bad(s, "setter %s does not answer the stored value" % st[0])
+                h, env = self.fresh(), dict(env)
+                env["@mut"], env[st[1]] = (st[1], h), ("int", h)
+                return self.wrap(pre, ("bind", h, r[2], go(env)))
         return super().assign(s, env, go)
+
+    def property_setter(self, tgt):
+        """for `self.a = e` with a class-level `a = property(<getter>, <_setter>, ..)`: (setter method name, the FIELD it assigns)"""
+        c = self.mod.classes.get(self.recv)
+        for st in (c.body if c else []):
+            if (isinstance(st, ast.Assign) and len(st.targets) == 1 and isinstance(st.targets[0], ast.Name) and st.targets[0].id == tgt.attr
+                    and isinstance(st.value, ast.Call) and dotted(st.value.func) == "property" and len(st.value.args) >= 2
+                    and isinstance(st.value.args[1], ast.Name)):
+                name = st.value.args[1].id
+                r = self.mod.lookup(self.recv, name)
+                fields = [dotted(n) for n in ast.walk(r[1]) if isinstance(n, ast.Attribute) and isinstance(n.ctx, ast.Store)] if r else []
+                if r and not r[2] and len(fields) == 1 and fields[0] in pysrc.FIELD:
+                    return name, fields[0]
+        return None
 
     def generated(self, node, recv, name, state, args):
         r = super().generated(node, recv, name, state, args)
